@@ -402,7 +402,7 @@ def random_exec(ctx: Ctx, loop: steploop.StepLoop, rng: random.Random) -> dict:
 
 
 # ---------------------------------------------------------------- driver A: TLC behaviours -> real code
-MICRO = {"STop", "SPop", "SExit", "SAfter", "SLing", "HEnter", "HRun", "HDone"}
+MICRO = {"STop", "SPop", "SExit", "SAfter", "SLing", "SLingWake", "HEnter", "HRun", "HDone"}
 READ_BUFSIZE = {0: 2, 1: 4}     # model HW (units buffered before reading pauses) -> read_bufsize (unit = 5 bytes)
 
 
@@ -846,7 +846,7 @@ def run(ctx: Ctx) -> None:
     ctx.log(f"hostile-target handling of the code under test: {ctx.extra['code_design']}")
     model_phase(ctx)
     sim_phase(ctx, loop)
-    n = ctx.pick(1000, 12000)
+    n = ctx.pick(1000, 8000)
     batch: List[dict] = []
     for _ in range(n):
         batch.append(random_exec(ctx, loop, ctx.rng))
@@ -908,7 +908,7 @@ def selftest(ctx: Ctx) -> int:
     cfg, _ = write_cfg("AlphaTiny", "BehBody", 2, hw=0, timers=True, disc=1, wp=1, view=False)
     behs, _res = simulate_behaviours("ServerConnMC", cfg, num=400, depth=90, seed=ctx.seed, timeout=300)
     seen = {l.split("(")[0] for bh in behs for l, _ in bh}
-    dead = [a for a in ("Step", "STop", "SPop", "SExit", "SAfter", "SLing", "HEnter", "HRun", "HDone", "Deliver",
+    dead = [a for a in ("Step", "STop", "SPop", "SExit", "SAfter", "SLing", "SLingWake", "HEnter", "HRun", "HDone", "Deliver",
                         "PeerDisconnect", "Go", "WritePause", "WriteResume", "Tick") if a not in seen]
     print("model actions never taken in 400 simulated behaviours:", dead)
     ok &= not dead
